@@ -419,6 +419,68 @@ func countersStartAtZero(p *pw.Path) *pw.Event {
 
 // borrow runs rules of another property into a scratch report and transfers the selected obligations under a rule id of
 // the current property (used where one structural condition is a necessary condition of several properties).
+// rangeVarCapturedByGo: with the module's language version below go1.22 a goroutine started in a range loop that refers to the loop's
+// variables sees them change under it (and races with the loop): each goroutine must get its own copy. Reports every such site in the
+// functions accepted by scope.
+func (c *Ctx) rangeVarCapturedByGo(rule string, scope func(name string) bool) {
+	r := c.R
+	if c.Pkg.Module != nil && c.Pkg.Module.GoVersion != "" {
+		var major, minor int
+		fmt.Sscanf(c.Pkg.Module.GoVersion, "%d.%d", &major, &minor)
+		if major > 1 || major == 1 && minor >= 22 {
+			r.OK(rule, "package:range-variable-capture", "module language version "+c.Pkg.Module.GoVersion+": per-iteration loop variables")
+			return
+		}
+	}
+	info := c.Pkg.TypesInfo
+	n, bad := 0, false
+	c.eachFuncDecl(func(fd *ast.FuncDecl, fn *types.Func) {
+		name := strings.TrimPrefix(pw.FuncName(fn), "cache.")
+		if scope != nil && !scope(name) {
+			return
+		}
+		ast.Inspect(fd.Body, func(x ast.Node) bool {
+			rs, ok := x.(*ast.RangeStmt)
+			if !ok || rs.Tok != token.DEFINE {
+				return true
+			}
+			n++
+			vars := map[types.Object]string{}
+			for _, e := range []ast.Expr{rs.Key, rs.Value} {
+				if id, ok := e.(*ast.Ident); ok && id.Name != "_" {
+					if o := info.Defs[id]; o != nil {
+						vars[o] = id.Name
+					}
+				}
+			}
+			ast.Inspect(rs.Body, func(y ast.Node) bool {
+				gs, ok := y.(*ast.GoStmt)
+				if !ok {
+					return true
+				}
+				lit, ok := ast.Unparen(gs.Call.Fun).(*ast.FuncLit)
+				if !ok {
+					return true
+				}
+				ast.Inspect(lit.Body, func(z ast.Node) bool {
+					if id, ok := z.(*ast.Ident); ok {
+						if vn, isVar := vars[info.Uses[id]]; isVar && !bad {
+							bad = true
+							r.Bad(rule, name, "range-variable-captured-by-goroutine", c.Pos(id.Pos()), "the goroutine started in the loop refers to the range variable "+vn+", which all iterations share (language version < go1.22): it works on a later iteration's value", nil)
+						}
+					}
+					return true
+				})
+				return true
+			})
+			return true
+		})
+	})
+	if !bad {
+		r.OK(rule, "package:range-variable-capture", fmt.Sprintf("%d range loops in scope, no goroutine captures a range variable", n))
+	}
+}
+
 // isIncrement: a counter step — a local variable or a field (of a visitor/accumulator struct) is assigned itself plus something.
 func isIncrement(ev *pw.Event) bool {
 	return (ev.Kind == pw.EvAssign || ev.Kind == pw.EvFieldWrite) && ev.Value != nil && ev.Value.Kind == pw.KArith && ev.Value.Op == token.ADD
